@@ -112,12 +112,15 @@ func runCleaner(args []string) []string {
 		return []string{"wiring-error:" + strings.ReplaceAll(err.Error(), " ", "_")}
 	}
 	ctx, cancel := context.WithTimeout(context.Background(), 10*time.Second)
-	defer cancel()
-	if err := app.Start(ctx); err != nil {
+	startErr := app.Start(ctx)
+	cancel() // the start context ends when the start is over, as under fx.App.Run: nothing may go on living off it
+	if err := startErr; err != nil {
 		return []string{"start-error:" + strings.ReplaceAll(err.Error(), " ", "_")}
 	}
 	defer func() { _ = app.Stop(context.Background()) }()
-	if err := w.Clock.BlockUntilContext(ctx, 1); err != nil { // the component's ticker is registered
+	wctx, wcancel := context.WithTimeout(context.Background(), 10*time.Second)
+	defer wcancel()
+	if err := w.Clock.BlockUntilContext(wctx, 1); err != nil { // the component's ticker is registered
 		return []string{"infra:ticker"}
 	}
 	settle := func() string {
